@@ -56,32 +56,58 @@ def main():
             res["demo_clean_output"] = o2[-500:]
     finally:
         sh(f"git -C /repo worktree remove --force {wt}")
-    # run checks against the patched /repo
+    # run checks against the patched tree: either /repo itself (--inplace: apply, run, undo) or, isolated, a copy of
+    # /verif whose checks are pointed at a patched scratch worktree (VERIF_REPO), leaving /repo and /verif untouched
     if checks is None:
         checks = [prop]
-    rc, out = sh(f"git -C /repo status --porcelain")
-    if out.strip():
-        print("refusing: /repo is not clean"); return 2
     caught = {}
-    try:
+    inplace = "--inplace" in sys.argv
+    if inplace:
+        rc, out = sh(f"git -C /repo status --porcelain")
+        if out.strip():
+            print("refusing: /repo is not clean"); return 2
         rc, out = sh(f"git -C /repo apply {d}/patch.diff")
         if rc != 0:
             print("apply to /repo failed", out); return 2
+        vroot, env_repo = "/verif", "/repo"
+    else:
+        vroot = "/tmp/verif_seed/" + os.path.basename(d)
+        env_repo = "/tmp/wt/patched_" + os.path.basename(d)
+        sh(f"git -C /repo worktree remove --force {env_repo}")
+        sh(f"git -C /repo worktree add -q --detach {env_repo} HEAD")
+        rc, out = sh(f"git apply {d}/patch.diff", cwd=env_repo)
+        if rc != 0:
+            print("apply failed", out); return 2
+        os.makedirs(vroot, exist_ok=True)
+        sh(f"rsync -a --delete --exclude .git --exclude replays --exclude seeded --exclude tmp /verif/ {vroot}/")
+        sh(f"sed -i 's#=> /repo#=> {env_repo}#' {vroot}/harness/go.mod")
+    try:
         for c in checks:
             t0 = time.time()
-            rc, out = sh(f"./check {c} --tier quick", cwd=os.environ.get("VERIF_ROOT", "/verif"), timeout=3600)
+            evp = f"{vroot}/evidence/{c}.json"
+            saved = open(evp).read() if os.path.exists(evp) else None
+            p = subprocess.run(f"./check {c} --tier quick", cwd=vroot, env=dict(ENV, VERIF_REPO=env_repo), shell=True,
+                               stdout=subprocess.PIPE, stderr=subprocess.STDOUT, text=True, timeout=3600)
+            rc, out = p.returncode, p.stdout
+            if saved is not None:
+                open(evp, "w").write(saved)     # evidence must describe runs on the unchanged tree only
             vio = [l for l in out.split("\n") if l.startswith("VIOLATION")]
-            caught[c] = {"rc": rc, "violations": vio[:3], "s": round(time.time() - t0)}
+            caught[c] = {"rc": rc, "violations": [v.replace(vroot, "/verif") for v in vio[:3]], "s": round(time.time() - t0)}
             try:
                 m = re.search(r"replay=(\S+)", vio[0]) if vio else None
                 if m:
                     rp = json.load(open(m.group(1)))
-                    caught[c]["first"] = {k: (str(rp.get(k))[:300]) for k in ("kind", "suite", "note", "impl", "other", "broken") if rp.get(k) is not None}
+                    caught[c]["first"] = {k: (str(rp.get(k))[:300]) for k in ("kind", "suite", "note", "impl", "other", "broken", "detail") if rp.get(k) is not None}
             except Exception as e:
                 caught[c]["first"] = {"error": str(e)}
     finally:
-        sh("git -C /repo checkout -- .")
-        sh("git -C /repo clean -fdq -e verif_* ")
+        if inplace:
+            sh("git -C /repo checkout -- .")
+            sh("git -C /repo clean -fdq -e verif_* ")
+        else:
+            sh(f"git -C /repo worktree remove --force {env_repo}")
+            shutil.rmtree(vroot, ignore_errors=True)
+    res["mode"] = "inplace" if inplace else "isolated"
     res["checks"] = caught
     res["caught_by"] = [c for c, v in caught.items() if v["rc"] == 1]
     print(json.dumps(res, indent=1))
